@@ -30,8 +30,10 @@ func BreakerHandler(method, path string, metrics *stat.Metrics) func(handler htt
 			}
 
 			cw := &response.WithCodeResponseWriter{Writer: w}
+			var finished bool
 			defer func() {
-				if cw.Code < http.StatusInternalServerError {
+				// 处理器发生 panic 时尚未写出状态码（Code 为 0）：这是一次失败，不能因 0 < 500 而记为成功
+				if finished && cw.Code < http.StatusInternalServerError {
 					promise.Accept()
 				} else {
 					promise.Reject(fmt.Sprintf("%d %s", cw.Code, http.StatusText(cw.Code)))
@@ -39,6 +41,7 @@ func BreakerHandler(method, path string, metrics *stat.Metrics) func(handler htt
 			}()
 
 			next.ServeHTTP(cw, r)
+			finished = true
 		})
 	}
 }
